@@ -29,7 +29,7 @@ from typing import cast
 import flask
 
 from dashlive.mpeg.dash.profiles import primary_profiles
-from dashlive.server.models import Stream
+from dashlive.server.models import MultiPeriodStream, Stream
 from dashlive.server.manifests import manifest_map
 from dashlive.server.options.container import OptionsContainer
 from dashlive.utils.objects import dict_to_cgi_params
@@ -45,8 +45,59 @@ from .decorators import (
     uses_multi_period_stream,
     current_mps,
 )
+from .exceptions import ManifestNotAvailable
 from .manifest_context import ManifestContext
 from .utils import add_allowed_origins, jsonify
+
+def stream_not_ready(stream: Stream | None) -> str | None:
+    """
+    Returns the reason why no manifest can be generated for this stream,
+    or None if it has the timing reference that a manifest needs.
+    """
+    if stream is None:
+        return 'stream no longer exists'
+    if stream.timing_reference is None:
+        return f'stream {stream.directory} has no timing reference'
+    return None
+
+
+def multi_period_stream_not_ready(mps: MultiPeriodStream) -> str | None:
+    """
+    Returns the reason why no manifest can be generated for this
+    multi-period stream, or None if every period can be presented.
+    """
+    if not mps.periods:
+        return f'{mps.name} has no periods'
+    for prd in mps.periods:
+        reason: str | None = stream_not_ready(prd.stream)
+        if reason is not None:
+            return f'period {prd.pid}: {reason}'
+        if not any(adp.content_type.name == 'video' for adp in prd.adaptation_sets):
+            return f'period {prd.pid} has no video adaptation set'
+    return None
+
+
+def manifest_not_ready(dash: ManifestContext) -> str | None:
+    """
+    Returns the reason why a manifest context cannot be rendered, or
+    None if every period has a video adaptation set with media.
+    """
+    if not dash.periods:
+        return 'no periods'
+    for period in dash.periods:
+        for adp in period.adaptationSets:
+            if adp.content_type == 'video' and adp.representations:
+                break
+        else:
+            return f'period {period.id} has no video representation'
+    return None
+
+
+def not_ready_response(reason: str) -> flask.Response:
+    logging.info('Manifest not available: %s', reason)
+    return flask.make_response(
+        f'Manifest not available: {html.escape(reason)}', 404)
+
 
 class ManifestTemplateContext(TemplateContext):
     mode: str
@@ -71,6 +122,9 @@ class ServeManifest(RequestHandlerBase):
     def get(self, mode: str, stream: str, manifest: str) -> flask.Response:
         logging.debug('ServeManifest: mode=%s stream=%s manifest=%s', mode, stream, manifest)
         mft = current_manifest
+        not_ready: str | None = stream_not_ready(current_stream)
+        if not_ready is not None:
+            return not_ready_response(not_ready)
         try:
             options = self.calculate_options(
                 mode=mode,
@@ -93,9 +147,15 @@ class ServeManifest(RequestHandlerBase):
         elif mft.segment_timeline or options.patch:
             options.update(segmentTimeline=True)
         options.remove_unused_parameters(mode)
-        dash = ManifestContext(
-            manifest=mft, options=options, stream=current_stream,
-            multi_period=None)
+        try:
+            dash = ManifestContext(
+                manifest=mft, options=options, stream=current_stream,
+                multi_period=None)
+        except ManifestNotAvailable as err:
+            return not_ready_response(str(err))
+        not_ready = manifest_not_ready(dash)
+        if not_ready is not None:
+            return not_ready_response(not_ready)
         context = cast(ManifestTemplateContext, self.create_context(
             title=current_stream.title, mpd=dash, options=options,
             mode=mode, stream=current_stream))
@@ -148,6 +208,9 @@ class ServeMultiPeriodManifest(RequestHandlerBase):
         logging.debug(
             'ServeMultiPeriodManifest: mode=%s mps=%s manifest=%s',
             mode, mps_name, manifest)
+        not_ready: str | None = multi_period_stream_not_ready(current_mps)
+        if not_ready is not None:
+            return not_ready_response(not_ready)
         try:
             options = self.calculate_options(
                 mode=mode,
@@ -158,9 +221,15 @@ class ServeMultiPeriodManifest(RequestHandlerBase):
         except ValueError as e:
             logging.info('Invalid CGI parameters: %s', e)
             return flask.make_response('Invalid CGI parameters', 400)
-        dash = ManifestContext(
-            manifest=current_manifest, options=options, stream=None,
-            multi_period=current_mps)
+        try:
+            dash = ManifestContext(
+                manifest=current_manifest, options=options, stream=None,
+                multi_period=current_mps)
+        except ManifestNotAvailable as err:
+            return not_ready_response(str(err))
+        not_ready = manifest_not_ready(dash)
+        if not_ready is not None:
+            return not_ready_response(not_ready)
         context = cast(ManifestTemplateContext, self.create_context(
             title=current_mps.title, mpd=dash, options=options,
             mode=mode))
@@ -229,6 +298,9 @@ class ServePatch(RequestHandlerBase):
         logging.debug(
             'ServePatch: stream=%s manifest=%s', stream, manifest)
         mft = current_manifest
+        not_ready: str | None = stream_not_ready(current_stream)
+        if not_ready is not None:
+            return not_ready_response(not_ready)
 
         if 'patch' not in mft.features:
             logging.warning(
@@ -269,9 +341,15 @@ class ServePatch(RequestHandlerBase):
         options.remove_unused_parameters('live')
         original_publish_time = datetime.datetime.fromtimestamp(
             publish, tz=UTC())
-        dash = ManifestContext(
-            manifest=mft, options=options, stream=current_stream,
-            multi_period=None)
+        try:
+            dash = ManifestContext(
+                manifest=mft, options=options, stream=current_stream,
+                multi_period=None)
+        except ManifestNotAvailable as err:
+            return not_ready_response(str(err))
+        not_ready = manifest_not_ready(dash)
+        if not_ready is not None:
+            return not_ready_response(not_ready)
         context = cast(PatchTemplateContext, self.create_context(
             title=current_stream.title, mpd=dash, options=options,
             stream=current_stream,
